@@ -263,6 +263,81 @@ def run(ctx):
                     ctx.violation(what="array append timestamps", mode=rm, with_timestamps=with_ts, observed=rec["err"],
                                   required="timestamps required exactly for IRREGULAR receivers")
                 ctx.case(("arr", kind, rm, with_ts))
+    # ... also when the timestamps argument is present but empty (a provided argument is not an absent one), with
+    # zero-length and non-empty arrays, and timestamps are never accepted together with waveform sources
+    from nitypes.waveform import AnalogWaveform, ComplexWaveform, DigitalWaveform, Timing, LinearScaleMode, NO_SCALING
+    import warnings as _w
+    B = H.BASE
+    def mk_plain(kind, timing, n=2, scale=None):
+        if kind == "digital":
+            return DigitalWaveform.from_lines(np.arange(n, dtype=np.uint8).reshape(n, 1) % 2, timing=timing)
+        cls, dty = (AnalogWaveform, np.float64) if kind == "analog" else (ComplexWaveform, np.complex128)
+        kw = {} if scale is None else {"scale_mode": scale}
+        return cls.from_array_1d(np.arange(n).astype(dty), dty, timing=timing, **kw)
+    TIM = {"none": lambda: Timing.empty, "N": lambda: Timing.create_with_no_interval(B),
+           "R": lambda: Timing.create_with_regular_interval(dt.timedelta(seconds=1), B),
+           "I": lambda: Timing.create_with_irregular_interval([B, B + dt.timedelta(seconds=1)])}
+    for kind in ("analog", "complex", "digital"):
+        for rm in TIM:
+            for tsname, mkts in (("None", lambda n: None), ("[]", lambda n: []), ("()", lambda n: ()), ("n", lambda n: [B + dt.timedelta(seconds=5 + k) for k in range(n)]),
+                                 ("n+1", lambda n: [B + dt.timedelta(seconds=5 + k) for k in range(n + 1)])):
+                for n in (0, 1, 2):
+                    w = mk_plain(kind, TIM[rm]())
+                    arr = (np.zeros((n, 1), np.uint8) if kind == "digital" else np.zeros(n, w.dtype))
+                    ts = mkts(n)
+                    before = world.snap(kind, w)
+                    o = outcome(w.append, arr, ts)
+                    want_ok = ((rm == "I") == (ts is not None)) and (ts is None or len(ts) == n)
+                    if (o[0] == "ok") != want_ok:
+                        ctx.violation(what="array append timestamps", kind=kind, mode=rm, timestamps=tsname, array_len=n, observed=str(o)[:160],
+                                      required="accepted" if want_ok else "refused: timestamps are required exactly for IRREGULAR receivers, one per sample")
+                    elif o[0] != "ok" and world.snap(kind, w) != before:
+                        ctx.violation(what="refused append changed the receiver", kind=kind, mode=rm, timestamps=tsname, array_len=n,
+                                      observed=world.snap(kind, w)[:160], required=before[:160])
+                    ctx.case(("arr-ts", kind, rm, tsname, n))
+                    # waveform sources never take a timestamps argument, empty or not
+                    if ts is not None:
+                        src = mk_plain(kind, TIM[rm]())
+                        for arg in (src, [src]):
+                            w2 = mk_plain(kind, TIM[rm]())
+                            o2 = outcome(w2.append, arg, ts)
+                            if o2[0] == "ok":
+                                ctx.violation(what="waveform append accepted a timestamps argument", kind=kind, mode=rm, timestamps=tsname,
+                                              observed="ok", required="ValueError")
+    # scale modes that differ by as little as one unit in the last place are different scale modes: the warning is about
+    # equality of (gain, offset), not closeness
+    import math
+    def near(x, k):
+        for _ in range(abs(k)):
+            x = math.nextafter(x, math.inf if k > 0 else -math.inf)
+        return x
+    for case in range(120 if ctx.quick else 2000):
+        kind = rng.choice(["analog", "complex"])
+        g = rng.choice([1.0, 2.0, 0.5, 1e-3, 1234.5678, rng.uniform(0.1, 100.0), -3.0, 1e12])
+        off = rng.choice([0.0, 0.5, -1.25, rng.uniform(-10, 10), 1e-9, 1e6])
+        c = rng.random()
+        if c < 0.25:
+            g2, o2 = g, off
+        elif c < 0.5:
+            g2, o2 = near(g, rng.choice([1, -1, 2, -3])), off
+        elif c < 0.75:
+            g2, o2 = g, near(off, rng.choice([1, -1, 2, 5]))
+        else:
+            g2, o2 = g * (1 + rng.choice([1e-15, 1e-12, 1e-10, -1e-10, 1e-7])), off + rng.choice([0.0, 1e-13, 1e-10])
+        nsrc = rng.choice([1, 1, 2])
+        recv = mk_plain(kind, Timing.empty, 2, LinearScaleMode(g, off))
+        srcs = [mk_plain(kind, Timing.empty, 1, LinearScaleMode(g, off) if (nsrc == 2 and i == 0) else LinearScaleMode(g2, o2)) for i in range(nsrc)]
+        with _w.catch_warnings(record=True) as wl:
+            _w.simplefilter("always")
+            o = outcome(recv.append, srcs[0] if nsrc == 1 and case % 2 else srcs)
+        warned = any(type(x.message).__name__ == "ScalingMismatchWarning" for x in wl)
+        want = (g, off) != (g2, o2)
+        if o[0] != "ok" or warned != want or (recv.scale_mode.gain, recv.scale_mode.offset) != (g, off) or recv.sample_count != 2 + nsrc:
+            ctx.violation(what="ScalingMismatchWarning for nearly equal scale modes", kind=kind, receiver=(g.hex(), off.hex()),
+                          source=(g2.hex(), o2.hex()), sources=nsrc, observed=f"{o[0]} warned={warned} scale={recv.scale_mode!r} count={recv.sample_count}",
+                          required=f"appended, warned={want}, receiver scale unchanged")
+        ctx.case(("near-scale", kind, g, off, g2, o2, nsrc))
+        ctx.count("near-scale", "equal" if not want else "differs")
     # a Timing object shared with other waveforms (or simply kept by the caller) is never modified by an append
     for kind in ("analog", "complex", "digital"):
         for how in ("array", "waveform", "waveforms", "array-rejected"):
